@@ -71,6 +71,16 @@ namespace rkverif_c06 {
   {
     return rkcommon::math::xfmNormal(m.l, n);
   }
+  inline float angle_unclamped(const quaternionf &q)  // must be reported: acos of a component nothing restricts
+  {
+    return 2.f * acos(q.r);
+  }
+  inline float angle_guarded(const quaternionf &q)    // must not be reported
+  {
+    if (q.r > 0.9995f)
+      return 0.f;
+    return 2.f * acos(q.r);
+  }
 #ifndef RKCOMMON_NO_SIMD
   inline float load_padded(const vec3fa &v)          // must be reported: vec3fa is padded, not aligned
   {
